@@ -80,6 +80,7 @@ type Event struct {
 
 type sched struct {
 	cfg     *Config
+	frozen  bool // vs.Freeze was called: no scheduling alternatives are offered any more
 	threads []*thread
 	cur     *thread
 	parked  chan *thread
@@ -415,9 +416,18 @@ func run(cfg *Config, prefix []int, body func(), trace bool) *Exec {
 			}
 			continue
 		}
+		if s.frozen && len(alts) > 1 {
+			// measurement phase (vs.Freeze): default thread only, its own free
+			// choices (select case, rendezvous partner, Choose) stay
+			k := 1
+			for k < len(alts) && alts[k].t == alts[0].t {
+				k++
+			}
+			alts = alts[:k]
+		}
 		nalts := len(alts)
 		timerAlt := false
-		if cfg.T > 0 && tm != nil && !restrict && tm.when <= horizon {
+		if cfg.T > 0 && tm != nil && !restrict && tm.when <= horizon && !s.frozen {
 			timerAlt = true
 			nalts++
 		}
@@ -845,6 +855,17 @@ func Point(kind string, obj unsafe.Pointer) {
 		return
 	}
 	yield(&op{kind: kind, obj: obj, ready: ready0})
+}
+
+// Freeze ends the explored part of an execution: from here on the scheduler
+// follows its deterministic default (no preemptions, no non-default thread
+// choices, no early timers are offered to the explorer). Harnesses call it
+// before a measurement phase that is an instrument, not part of the system
+// whose schedules are explored.
+func Freeze() {
+	if S != nil {
+		S.frozen = true
+	}
 }
 
 // Atomic is a visible step that is enabled when en() holds (en == nil: always);
